@@ -273,6 +273,11 @@ def c03_oracle(case, out, model_out):
     b = parse_value(m["b"]) if m.get("b") is not None else None
     allowed = c03_reference(m["op"], a, b)
     if allowed is None:
+        # `^`: always a float, the std function powf on the converted operands (the model routes it to the std oracle)
+        if m["op"] == "^" and model_out is not None and not out.startswith("PANIC") and not model_out.startswith("PANIC"):
+            got, want = step_outputs(out)[-1], step_outputs(model_out)[-1]
+            if got != want:
+                return "%s ^ %s = %s, f64::powf on the converted operands gives %s" % (m["a"], m["b"], got, want)
         return None
     last = step_outputs(out)[-1]
     cls = outcome_class(last)
@@ -332,7 +337,7 @@ def c03_gen(tier, rng):
 
 PROPS = {
     "C03": {
-        "gen": c03_gen, "oracle": c03_oracle, "release": True, "extra_props": ["FloatIEEE"],
+        "gen": c03_gen, "oracle": c03_oracle, "release": True, "extra_props": ["FloatIEEE", "FloatIEEE2"],
         "rule": "complete edge-value pool P x P (quick: complete small pool + sampled numeric/string pairs) for the 14 binary and 2 prefix operators, operands bound as variables and as literals where expressible, plus random boundary-biased pairs; a case is non-trivial if it has two operands or does not evaluate to a plain literal; distinct = distinct case line",
         "assumptions": ["the Coq model of Operator::eval equals the Rust code: checked by this run's correspondence (sampled, both build profiles)",
                         "std oracle: f64::powf of Rust's std for `^`",
@@ -1057,7 +1062,7 @@ def c10_gen(tier, rng):
 
 
 PROPS["C10"] = {
-    "gen": c10_gen, "oracle": c10_oracle, "release": True,
+    "gen": c10_gen, "oracle": c10_oracle, "release": True, "extra_props": ["FloatIEEE2"],
     "rule": "every documented builtin (49) applied to every value of the edge pool P, to all pairs of the small pool (full integer/float pairs for the two-argument numeric ones, all shift amounts -2..66), to random tuples of arity 0..4, str::substring over all byte offsets of the string pool, typed `if`, min/max over random lists; debug and release builds; reference: documented result computed independently for the non-transcendental builtins, the std function on the documented arguments (through the model) for the others; non-trivial = the builtin returns a value",
     "nontrivial": lambda c, out: " OK " in out.split(" || ")[0].split(" | ")[-1] or out.split(" || ")[0].split(" | ")[-1].startswith("OK"),
     "assumptions": ["std oracle: the f64 functions of Rust's std are what the documentation calls `the corresponding double-precision library function`",
